@@ -3,7 +3,7 @@
    Curve.raise_order (curve.py).  The interpolation is modelled by the exact, self-checking solve of
    Model/Solve.v and applied along one direction at a time.  Definitions only. *)
 From Coq Require Import List ZArith Bool Arith.
-From SplipyModel Require Import Model.Num Model.BasisDef Model.BasisEval Model.Tensor Model.Obj Model.KnotInsert Model.Tol Model.Solve.
+From SplipyModel Require Import Model.Num Model.BasisDef Model.BasisEval Model.Tensor Model.Obj Model.KnotInsert Model.Tol Model.Solve Model.Interp.
 Import ListNotations.
 
 Section Model.
@@ -58,12 +58,15 @@ Section Model.
 
   (* the Greville points of a basis and the collocation matrices used by the order-changing routines *)
   Definition greville_pts (b : basis F) : list F := map (greville (b_knots b) (b_order b)) (seq 0 (b_nfun b)).
-  Definition colloc (tol : F) (b : basis F) (pts : list F) : list (list F) :=
-    basis_evaluate (b_knots b) (b_order b) (b_per1 b) tol 0 true pts.
-  (* M = N_new(pts)^-1 N_old(pts), pts the Greville points of the new basis *)
+  (* M = N_new(pts)^-1 N_old(pts), pts the Greville points of the new basis.  The code calls np.linalg.inv
+     (SplineObject.raise_order_implicit / lower_order) or spsolve (Curve.raise_order); the model's [inverse]
+     accepts its candidate only as a well-shaped two-sided inverse, which is what makes the solution unique. *)
   Definition order_change_matrix (tol : F) (b_old b_new : basis F) : res (list (list F)) :=
     let pts := greville_pts b_new in
-    solve (colloc tol b_new pts) (colloc tol b_old pts).
+    match inverse (colloc tol b_new 0 pts) with
+    | Err e => Err e
+    | Ok Ai => Ok (matmul Ai (colloc tol b_old 0 pts))
+    end.
 
   Fixpoint obj_change_bases (tol : F) (o : obj F) (d : nat) (news : list (basis F)) : res (obj F) :=
     match news with
